@@ -5,8 +5,10 @@ from .. import common, attr, gen
 
 def twin_defs(rng, n):
     """(id, source with only the traits under test, source with other traits + their attributes added)."""
-    from . import c02, c03, c05, c06, c07, c09, c10
-    makers = [c02.P(100), c03.P(100), c05.P(100), c06.P(), c07.P(100), c09.P(), c10.P()]
+    from . import c02, c03, c05, c06, c07, c08, c09, c10
+    # (Default among them: on an enum only the designated variant's fields may carry Default attributes, and the other
+    #  traits' attributes on the fields of the other variants are none of its business)
+    makers = [c02.P(100), c03.P(100), c05.P(100), c06.P(), c07.P(100), c08.P(kinds=("struct", "enum", "enum")), c09.P(), c10.P()]
     out = []
     for i in range(n):
         p = rng.choice(makers)
